@@ -482,7 +482,9 @@ BodyFailures(req, h, bs, toks, drained) ==
                        IN /\ TokPrefix(ptoks, exp)
                           /\ clean => (ptoks = exp /\ (withH => PartHdrsAre(toks, req.ent.hdrs)))
                           /\ h.cl.k = "num" /\ h.cl.v = N(SumTokLens(exp, 1))
-                  ELSE TRUE
+                  ELSE \* parts too long to drain: the announced length must still be the exact one
+                       LET ml == MultipartLen(sh.parts, 1, L, eh.hl)
+                       IN h.cl.k = "num" /\ ~ml.of /\ h.cl.v = ml.v
   }
 
 (***************************************************************************)
